@@ -602,6 +602,76 @@ impl<W: Write> Runner<W> {
                     self.round(w, conn, dt);
                 }
             }
+            "rt_renet" => {
+                // build a packet value, serialize it with the crate's encoder, decode it back, compare
+                let num = |v: &Value, k: &str| getu(v, k);
+                let kind = gets(st, "kind").to_string();
+                let seq = num(st, "seq");
+                let ch = num(st, "ch") as u8;
+                let mk_slice = |x: &Value| Slice {
+                    message_id: num(x, "mid"),
+                    slice_index: num(x, "idx") as usize,
+                    num_slices: num(x, "n") as usize,
+                    payload: Bytes::from(vec![0x5Au8; num(x, "len") as usize]),
+                };
+                let p = match kind.as_str() {
+                    "SR" => Packet::SmallReliable {
+                        sequence: seq,
+                        channel_id: ch,
+                        messages: st["msgs"].as_array().map(|a| a.iter().map(|m| (num(m, "mid"), Bytes::from(vec![0xA5u8; num(m, "len") as usize]))).collect()).unwrap_or_default(),
+                    },
+                    "SU" => Packet::SmallUnreliable {
+                        sequence: seq,
+                        channel_id: ch,
+                        messages: st["msgs"].as_array().map(|a| a.iter().map(|m| Bytes::from(vec![0xA5u8; num(m, "len") as usize])).collect()).unwrap_or_default(),
+                    },
+                    "RS" => Packet::ReliableSlice { sequence: seq, channel_id: ch, slice: mk_slice(&st["sl"]) },
+                    "US" => Packet::UnreliableSlice { sequence: seq, channel_id: ch, slice: mk_slice(&st["sl"]) },
+                    _ => Packet::Ack {
+                        sequence: seq,
+                        ack_ranges: st["ranges"].as_array().map(|a| a.iter().map(|r| num(&json!({"a": r[0]}), "a")..num(&json!({"a": r[1]}), "a")).collect()).unwrap_or_default(),
+                    },
+                };
+                let r = guarded(|| {
+                    let mut buf = [0u8; 1400];
+                    let mut o = octets::OctetsMut::with_slice(&mut buf);
+                    match p.to_bytes(&mut o) {
+                        Err(_) => ("enc_err", 0usize, false),
+                        Ok(len) => {
+                            let mut d = octets::Octets::with_slice(&buf[..len]);
+                            match Packet::from_bytes(&mut d) {
+                                Ok(q) => ("ok", len, q == p),
+                                Err(_) => ("dec_err", len, false),
+                            }
+                        }
+                    }
+                });
+                let (res, len, ok) = r.clone().unwrap_or(("panic", 0, false));
+                // a value that does not fit the 1400 byte buffer is not a wire value: not a round-trip failure
+                self.emit(json!({"ev":"rt","layer":"renet","kind":kind,"res":res,"len":len,"ok":ok || res == "enc_err","shape":gets(st,"shape"),"panic":r.is_err()}));
+            }
+            "re_renet" => {
+                let b = unhex(gets(st, "hex"));
+                let r = guarded(|| {
+                    let mut d = octets::Octets::with_slice(&b);
+                    match Packet::from_bytes(&mut d) {
+                        Err(_) => (false, true),
+                        Ok(p) => {
+                            let mut buf = [0u8; 2800];
+                            let mut o = octets::OctetsMut::with_slice(&mut buf);
+                            match p.to_bytes(&mut o) {
+                                Err(_) => (true, false),
+                                Ok(len) => {
+                                    let mut d2 = octets::Octets::with_slice(&buf[..len]);
+                                    (true, Packet::from_bytes(&mut d2).map_or(false, |q| q == p))
+                                }
+                            }
+                        }
+                    }
+                });
+                let (dec, ok) = r.clone().unwrap_or((false, false));
+                self.emit(json!({"ev":"re","layer":"renet","decodable":dec,"ok":ok,"len":b.len(),"shape":gets(st,"shape"),"panic":r.is_err()}));
+            }
             "roundeach" => {
                 // one good round per connection, the server side advanced through the per-connection hook
                 let dt = getu(st, "dt");
@@ -804,6 +874,20 @@ impl<W: Write> Runner<W> {
             _ => vec![],
         };
         let descs: Vec<Value> = pkts.iter().map(|b| w.describe_ctx(b, Some((conn, side)))).collect();
+        // C16: the ack packet of this flush denotes exactly the recorded pending ranges (compared on the raw 64-bit values)
+        let pend: Vec<std::ops::Range<u64>> = w.ep(conn, side).map(|c| c.verif_pending_acks()).unwrap_or_default();
+        let mut acked: Option<Vec<std::ops::Range<u64>>> = None;
+        for b in pkts.iter() {
+            let mut o = octets::Octets::with_slice(b);
+            if let Ok(Packet::Ack { ack_ranges, .. }) = Packet::from_bytes(&mut o) {
+                acked = Some(ack_ranges);
+            }
+        }
+        let alive = w.ep(conn, side).map_or(false, |c| !c.is_disconnected());
+        let pendok = !alive || match &acked {
+            Some(r) => *r == pend,
+            None => pend.is_empty(),
+        };
         let fl = {
             let f = w.flushes.entry((conn, side)).or_default();
             f.push(
@@ -823,7 +907,7 @@ impl<W: Write> Runner<W> {
             inf.push((fl, ix));
         }
         self.emit(json!({"ev":"flush","conn":conn,"side":side.to_string(),"dir":Self::dir_of_sender(side),"t":t,"fl":fl,"pk":descs,
-            "st0":st0,"st1":st1,"panic":r.is_err()}));
+            "st0":st0,"st1":st1,"pendok":pendok,"npend":pend.len(),"panic":r.is_err()}));
         if r.is_err() {
             self.panics += 1;
             w.dead = true;
